@@ -202,6 +202,29 @@ fn line_count_including_trailing_empty_line(text: &str) -> usize {
     lines
 }
 
+/// The last line (absolute, 1-based, inclusive) of the window that
+/// [`crate::de_snipped::crop_source_window`] crops out of `text` around `location`: two lines
+/// after the error line, clipped to the last line of the input.
+///
+/// The empty line after a final line break counts as a line of the input (end-of-input errors
+/// are reported there), but the empty line after the window's own final line break is not part
+/// of the window unless it is that last line of the input.
+fn cropped_region_end_line(
+    text: &str,
+    mapping: crate::de_snipped::LineMapping,
+    location: &Location,
+) -> usize {
+    let first_text_line = match mapping {
+        crate::de_snipped::LineMapping::Identity => 1,
+        crate::de_snipped::LineMapping::Offset { start_line } => start_line,
+    };
+    let last_text_line = first_text_line
+        .saturating_add(line_count_including_trailing_empty_line(text).saturating_sub(1));
+    (location.line as usize)
+        .saturating_add(2)
+        .min(last_text_line)
+}
+
 #[cfg(any(feature = "garde", feature = "validator"))]
 #[derive(Debug, Clone)]
 pub(crate) struct ValidationIssue {
@@ -729,8 +752,7 @@ impl Error {
             if cropped.is_empty() {
                 return;
             }
-            let lines = line_count_including_trailing_empty_line(cropped.as_str());
-            let end_line = start_line.saturating_add(lines.saturating_sub(1));
+            let end_line = cropped_region_end_line(text, mapping, location);
             regions.push(CroppedRegion {
                 text: cropped,
                 start_line,
@@ -861,8 +883,7 @@ impl Error {
             if cropped.is_empty() {
                 return;
             }
-            let lines = line_count_including_trailing_empty_line(cropped.as_str());
-            let end_line = region_start_line.saturating_add(lines.saturating_sub(1));
+            let end_line = cropped_region_end_line(text, mapping, location);
             regions.push(CroppedRegion {
                 text: cropped,
                 start_line: region_start_line,
